@@ -158,17 +158,21 @@ func (t *Dense) Reshape(dims ...int) error {
 // that its shape and data order imply. A tensor that owns its data usually does. Some copies do not: the clone
 // of a non-contiguous view keeps the length and the strides of the view, so does the result of UT() on a SafeT()
 // of a transposed tensor.
-func (t *Dense) hasDefaultLayout() bool {
-	if t.len() != t.Size() {
+func (t *Dense) hasDefaultLayout() bool { return isDefaultLayout(&t.AP, t.len()) }
+
+// isDefaultLayout reports whether an array of n elements read through ap is exactly the elements that ap describes,
+// under the strides that its shape and data order imply.
+func isDefaultLayout(ap *AP, n int) bool {
+	if n != ap.Size() {
 		return false
 	}
-	expected := t.AP.calcStrides()
+	expected := ap.calcStrides()
 	defer ReturnInts(expected)
-	if len(expected) != len(t.strides) {
+	if len(expected) != len(ap.strides) {
 		return false
 	}
 	for i, s := range expected {
-		if t.strides[i] != s {
+		if ap.strides[i] != s {
 			return false
 		}
 	}
